@@ -16,7 +16,8 @@ CONSTANTS NF,        \* number of distinct file ids
           Kinds,     \* section kinds enabled
           MaxHunks,  \* hunks per section
           MaxBody,   \* body lines per hunk
-          Preamble   \* BOOLEAN: commit headers and free text are generated
+          Preamble,  \* BOOLEAN: commit headers and free text are generated
+          MaxConf    \* lines in each part of a conflict region (combined diffs)
 
 VARIABLES hist, gs
 
@@ -39,12 +40,13 @@ Template(kd, f, g) ==
                              L("ppp", f, 0) >>
     [] kd = "bin"      -> << L("index", 0, 0), L("binary", f, f) >>
     [] kd = "binadd"   -> << L("newfile", 0, 0), L("index", 0, 0), L("binary", 0, f) >>
+    [] kd = "cc"       -> << L("index", 0, 0), L("mmm", f, 0), L("ppp", f, 0) >>   \* diff --cc / --combined (merge)
     [] kd = "bare"     -> << >>
 
-HasHunks(kd)  == kd \in {"mod", "add", "del", "renmod", "modemod"}
+HasHunks(kd)  == kd \in {"mod", "add", "del", "renmod", "modemod", "cc"}
 TwoPaths(kd)  == kd \in {"rename", "renmod", "copy"}
 AllKinds == {"mod", "add", "addempty", "del", "rename", "renmod", "copy", "modeonly", "modemod", "bin",
-             "binadd", "bare"}
+             "binadd", "bare", "cc"}
 
 BodyClasses == {"minus", "plus", "zero"}
 
@@ -54,10 +56,12 @@ BodyClasses == {"minus", "plus", "zero"}
 (*   nh    hunks begun in this section, nb body lines in the current hunk                 *)
 (*   last  class of the last body line ("" if none in this hunk)                          *)
 (*   pre   phase of the preamble: 0 nothing yet / free text, 1 just after "commit"        *)
-GInit == [todo |-> <<>>, kd |-> "", nh |-> 0, nb |-> 0, last |-> "", pre |-> 0, closed |-> FALSE]
+(*   conf  inside a combined-diff hunk: phase of the conflict region being emitted              *)
+(*         ("" none, "ours", "anc", "theirs"); nc lines emitted in the current phase            *)
+GInit == [todo |-> <<>>, kd |-> "", nh |-> 0, nb |-> 0, last |-> "", pre |-> 0, closed |-> FALSE, conf |-> "", nc |-> 0]
 
 \* The section in progress is complete: a new section or commit may begin.
-Complete(s) == /\ s.todo = <<>>
+Complete(s) == /\ s.todo = <<>> /\ s.conf = ""
                /\ (HasHunks(s.kd) => s.nh >= 1 /\ s.nb >= 1)
 
 Emit(line, s2) == /\ Len(hist) < MaxLen
@@ -78,15 +82,27 @@ HeaderLine ==
 HunkHeader ==
   /\ gs.todo = <<>> /\ HasHunks(gs.kd) /\ gs.nh < MaxHunks /\ ~gs.closed
   /\ (gs.nh >= 1 => gs.nb >= 1)
+  /\ gs.conf = ""
   /\ Emit(L("hh", 0, 0), [gs EXCEPT !.nh = @ + 1, !.nb = 0, !.last = ""])
 
 Body ==
-  /\ gs.todo = <<>> /\ gs.nh >= 1 /\ gs.nb < MaxBody /\ ~gs.closed
+  /\ gs.todo = <<>> /\ gs.nh >= 1 /\ gs.nb < MaxBody /\ ~gs.closed /\ gs.conf = ""
   /\ \E c \in BodyClasses : Emit(L(c, 0, 0), [gs EXCEPT !.nb = @ + 1, !.last = c])
 
 NoNewline ==   \* "\ No newline at end of file" follows a body line
-  /\ gs.todo = <<>> /\ gs.nh >= 1 /\ gs.nb >= 1 /\ gs.last \in BodyClasses /\ ~gs.closed
+  /\ gs.todo = <<>> /\ gs.nh >= 1 /\ gs.nb >= 1 /\ gs.last \in BodyClasses /\ ~gs.closed /\ gs.conf = "" /\ gs.kd # "cc"
   /\ Emit(L("nonl", 0, 0), [gs EXCEPT !.last = "nonl"])
+
+(* A conflict region inside a hunk of a combined diff:  ++<<<<<<< ours  [++||||||| base]   *)
+(* ++======= theirs  ++>>>>>>>  with up to MaxConf lines in each part.                       *)
+ConflictStep ==
+  /\ gs.kd = "cc" /\ gs.todo = <<>> /\ gs.nh >= 1 /\ ~gs.closed
+  /\ \/ gs.conf = "" /\ gs.nb < MaxBody /\ Emit(L("m_ours", 0, 0), [gs EXCEPT !.conf = "ours", !.nc = 0])
+     \/ gs.conf \in {"ours", "anc", "theirs"} /\ gs.nc < MaxConf
+          /\ Emit(L("cin", 0, 0), [gs EXCEPT !.nc = @ + 1])
+     \/ gs.conf = "ours" /\ Emit(L("m_anc", 0, 0), [gs EXCEPT !.conf = "anc", !.nc = 0])
+     \/ gs.conf \in {"ours", "anc"} /\ Emit(L("m_theirs", 0, 0), [gs EXCEPT !.conf = "theirs", !.nc = 0])
+     \/ gs.conf = "theirs" /\ Emit(L("m_end", 0, 0), [gs EXCEPT !.conf = "", !.nb = @ + 1, !.last = "zero"])
 
 Blank ==       \* the empty line `git log -p` prints after the last section of a commit
   /\ Preamble /\ Complete(gs) /\ gs.kd # "" /\ ~gs.closed
@@ -100,5 +116,5 @@ Text ==        \* free text: commit message, log metadata, anything before/betwe
   /\ Preamble /\ gs.kd = ""
   /\ Emit(L("other", 0, 0), gs)
 
-GNext == StartSection \/ HeaderLine \/ HunkHeader \/ Body \/ NoNewline \/ Blank \/ Commit \/ Text
+GNext == StartSection \/ HeaderLine \/ HunkHeader \/ Body \/ NoNewline \/ ConflictStep \/ Blank \/ Commit \/ Text
 =============================================================================
